@@ -4,6 +4,9 @@ CONSTANTS
   Alphabet = {120, 58, 35, 32, 9, 13, 10}
   MaxLen = 6
   LemmaLen = 6
+  GpgLen = 5
+  StrictDroppedInGpgClasses = FALSE
+  PosStrictMissedByPrepass = FALSE
   ZoneWhatIf = FALSE
   Emit = TRUE
   NoIndentRule = FALSE
